@@ -518,7 +518,12 @@ func history(run, steps, conc int, seed int64) ([]map[string]any, error) {
 			lastBody, lastCi = body, ci
 			rep, err := c.Request(sim.TOldPostNews, sim.Fld(sim.FData, body))
 			if err != nil {
-				return nil, fmt.Errorf("post: %w", err)
+				// observed: the post was never answered.  Recorded as such (the history ends here).
+				disk, _ := os.ReadFile(filepath.Join(w.Config, "MessageBoard.txt"))
+				evs = append(evs, map[string]any{"op": "post", "run": run, "a": next, "c": ci + 1, "ok": false, "noreply": err.Error(), "announced": []int{},
+					"disk": postsIn(disk), "diskExact": false, "name": sim.Ints([]byte(fmt.Sprintf("user%d", ci+1))),
+					"body": sim.Ints(bytes.ReplaceAll(body, []byte("\n"), []byte("\r"))), "rendered": []int{}})
+				return evs, nil
 			}
 			for _, x := range clients {
 				x.Settle()
@@ -552,7 +557,9 @@ func history(run, steps, conc int, seed int64) ([]map[string]any, error) {
 		} else {
 			rep, err := c.Request(sim.TGetMsgs)
 			if err != nil {
-				return nil, fmt.Errorf("getmsgs: %w", err)
+				// observed: the board request was never answered (the history ends here)
+				evs = append(evs, map[string]any{"op": "read", "run": run, "c": ci + 1, "ok": false, "noreply": err.Error(), "posts": []int{}, "len": 0, "exact": false})
+				return evs, nil
 			}
 			d, _ := rep.Get(sim.FData)
 			ids := postsIn(d)
